@@ -306,6 +306,23 @@ Definition msg_view (s : mq) (id : Z) : Z * Z * Z :=
 Fixpoint zseq (start : Z) (n : nat) : list Z :=
   match n with O => [] | S k => start :: zseq (start + 1) k end.
 
+(** The per-message table is sent as a difference to the previous snapshot
+    ((id, entry) pairs, new ids appended); the comparison is still against the
+    complete table. *)
+Fixpoint set_nth {A} (i : nat) (v : A) (l : list A) : list A :=
+  match i, l with
+  | O, [] => [v]
+  | O, _ :: r => v :: r
+  | S k, [] => []
+  | S k, x :: r => x :: set_nth k v r
+  end.
+
+Definition apply_diffs (prev : list (Z * Z * Z)) (d : list (Z * (Z * Z * Z))) : list (Z * Z * Z) :=
+  fold_left (fun l iv => set_nth (Z.to_nat (fst iv)) (snd iv) l) d prev.
+
+Definition dsnap : Type :=
+  (list Z * list Z * list Z * list Z) * (list Z * Z) * list (Z * (Z * Z * Z)) * list Z * list Z.
+
 Definition ok_snap (s : mq) (v : snap) : bool :=
   let '(((pend, infl, msgs, resch), (cs, cidx)), objs, dead, ctr) := v in
   zlist_eqb (q_pending s) pend && zlist_eqb (q_inflight s) infl && zlist_eqb (q_msgs s) msgs
@@ -331,13 +348,15 @@ Definition out_eqb (a b : out) : bool :=
 
 (** A case: configuration and the recorded trace; every entry is the operation as the queue
     saw it, the outputs it produced and the snapshot after it. *)
-Fixpoint ok_trace (cfg : mqcfg) (s : mq) (tr : list (op * list out * snap)) : bool :=
+Fixpoint ok_trace (cfg : mqcfg) (s : mq) (prev : list (Z * Z * Z)) (tr : list (op * list out * dsnap)) : bool :=
   match tr with
   | [] => true
   | (o, outs, v) :: r =>
       let '(s1, mo) := step cfg s o in
-      list_eqb out_eqb mo outs && ok_snap s1 v && ok_trace cfg s1 r
+      let '(((a, b), d, dead, ctr)) := v in
+      let objs := apply_diffs prev d in
+      list_eqb out_eqb mo outs && ok_snap s1 (a, b, objs, dead, ctr) && ok_trace cfg s1 objs r
   end.
 
-Definition ok_mq (c : mqcfg * list (op * list out * snap)) : bool :=
-  ok_trace (fst c) mq_init (snd c).
+Definition ok_mq (c : mqcfg * list (op * list out * dsnap)) : bool :=
+  ok_trace (fst c) mq_init [] (snd c).
